@@ -532,6 +532,11 @@ def call_method(interp, obj, name, args, kwargs, lineno):
             from .npmodel import call_np
             return call_np(interp, name, [a], {}, lineno)
         if name == 'view':
+            from .interp import AClassRef
+            if args and isinstance(args[0], AClassRef):
+                if args[0].name == 'TrackedArray':
+                    return interp.tracked_view(obj)
+                raise AnalysisError(f"ndarray.view({args[0].name})")
             return obj
         if name == 'astype':
             if _is_int_dtype(args[0] if args else kwargs.get('dtype')) and a.kind == 'real':
@@ -608,6 +613,10 @@ def call_builtin(interp, name, args, kwargs, lineno, fr):
         c = interp.truth(args[0])
         if isinstance(c, bool):
             return c
+        from . import interp as _I
+        if isinstance(c, Rat) and _I.JOB_FORK is not None and interp.fork is None and _I.is_tolpred(c):
+            # bool(np.allclose(..)) and the like: decided per job path, exactly as `if np.allclose(..):` is
+            return bool(_I._CompoundFork(_I.JOB_FORK).decide(c, f"{interp.cur_file}.py:{lineno}: bool(..)"))
         raise AnalysisError("bool() of a symbolic value")
     if name in ('int', 'float'):
         x = args[0]
